@@ -174,4 +174,137 @@ theorem mergeDepth_new (H : Nat) (env : Nat → Nat) (v : Option Nat) (l : Nat) 
       have := mergeDepth_new H env v l ds (fun e he' => h e (by simp [he']))
       omega
 
+/-- literal part of a read requirement after `needs_clean_outer` has been taken into account -/
+def infoAdj (i : ReadInfo) : Nat := if i.lit != 0 && !i.needsCleanOuter then i.lit - 1 else i.lit
+
+/-- the halo depth one reader requires, as PSyclone evaluates its `HaloReadAccess` -/
+def infoNeed (H : Nat) (env : Nat → Nat) (i : ReadInfo) : Nat :=
+  if i.maxDepth then (if i.needsCleanOuter then H else H - 1) else infoAdj i + envv env i.var
+
+/-- one iteration of the main loop of `_create_depth_list` -/
+def dstep (acc : List HaloDepth) (i : ReadInfo) : List HaloDepth :=
+  if i.maxDepth && !i.needsCleanOuter then acc else mergeDepth acc i.var (infoAdj i)
+
+theorem depthList_eq (infos : List ReadInfo) :
+    depthList infos =
+      if infos.all (fun i => i.annexedOnly || (i.lit == 1 && !i.needsCleanOuter)) then
+        [⟨1, none, false, false, true⟩]
+      else if infos.any (fun i => i.maxDepth && i.needsCleanOuter) then
+        [⟨0, none, true, false, false⟩]
+      else infos.foldl dstep
+        (if infos.any (fun i => i.maxDepth) then [⟨0, none, false, true, false⟩] else []) := by
+  rfl
+
+theorem foldl_dstep (H : Nat) (env : Nat → Nat) : ∀ (infos : List ReadInfo) (acc : List HaloDepth),
+    AccNorm acc →
+    evalDepths H env acc ≤ evalDepths H env (infos.foldl dstep acc) ∧
+    ∀ i ∈ infos, i.maxDepth = false →
+      infoAdj i + envv env i.var ≤ evalDepths H env (infos.foldl dstep acc)
+  | [], acc, _ => by simp
+  | j :: js, acc, hn => by
+    have hn' : AccNorm (dstep acc j) := by
+      unfold dstep; split
+      · exact hn
+      · exact mergeDepth_norm _ _ _ hn
+    have hmono : evalDepths H env acc ≤ evalDepths H env (dstep acc j) := by
+      unfold dstep; split
+      · exact Nat.le_refl _
+      · exact mergeDepth_mono H env _ _ _
+    obtain ⟨ih1, ih2⟩ := foldl_dstep H env js (dstep acc j) hn'
+    simp only [List.foldl_cons]
+    refine ⟨Nat.le_trans hmono ih1, ?_⟩
+    intro i hi hmax
+    simp at hi
+    rcases hi with rfl | hi
+    · have : infoAdj i + envv env i.var ≤ evalDepths H env (dstep acc i) := by
+        unfold dstep
+        simp [hmax]
+        exact mergeDepth_new H env _ _ _ hn
+      exact Nat.le_trans this ih1
+    · exact ih2 i hi hmax
+
+/-- shape of the information `HaloReadAccess` can produce -/
+def InfoWF (i : ReadInfo) : Prop :=
+  (i.annexedOnly = true → i.lit = 1 ∧ i.var = none ∧ i.maxDepth = false) ∧
+  (i.needsCleanOuter = false → i.var = none) ∧ (i.maxDepth = true → i.lit = 0)
+
+theorem depthList_covers (H : Nat) (env : Nat → Nat) (infos : List ReadInfo) (i : ReadInfo)
+    (hi : i ∈ infos) (hwf : InfoWF i) (hdeep : infoNeed H env i ≤ H) :
+    infoNeed H env i ≤ evalDepths H env (depthList infos) := by
+  rw [depthList_eq]
+  obtain ⟨w1, w2, w3⟩ := hwf
+  split
+  · rename_i hall
+    have := List.all_eq_true.mp hall i hi
+    rw [evalDepths_cons]
+    simp [evalDepth, evalDepths]
+    simp at this
+    obtain ⟨il, iv, im, ia, inco⟩ := i
+    simp at w1 w2 w3 this
+    rcases this with ha | ⟨h1, h2⟩
+    · obtain ⟨rfl, rfl, rfl⟩ := w1 ha
+      simp [infoNeed, infoAdj, envv]; split <;> omega
+    · subst h1 h2
+      have hv := w2 rfl
+      subst hv
+      cases im
+      · simp [infoNeed, infoAdj, envv]
+      · simp at w3
+  · split
+    · rw [evalDepths_cons]
+      simp [evalDepth, evalDepths]
+      exact hdeep
+    · rename_i hany
+      by_cases hm : i.maxDepth = true
+      · -- a `max_depth` reader that does not need its outer level: covered by the `max-1` entry
+        have hnco : i.needsCleanOuter = false := by
+          cases h : i.needsCleanOuter
+          · rfl
+          · exfalso; apply hany
+            exact List.any_eq_true.mpr ⟨i, hi, by simp [hm, h]⟩
+        have hanym : infos.any (fun i => i.maxDepth) = true :=
+          List.any_eq_true.mpr ⟨i, hi, hm⟩
+        simp only [hanym, if_true]
+        have h0 := (foldl_dstep H env infos [⟨0, none, false, true, false⟩]
+          (by intro e he hm1; simp at he; subst he; simp at hm1)).1
+        rw [evalDepths_cons] at h0
+        simp [evalDepth, evalDepths] at h0
+        simp [infoNeed, hm, hnco]
+        exact h0
+      · have hm' : i.maxDepth = false := by cases h : i.maxDepth <;> simp_all
+        have hn : AccNorm (if infos.any (fun i => i.maxDepth) then
+            [(⟨0, none, false, true, false⟩ : HaloDepth)] else []) := by
+          split
+          · intro e he hm1; simp at he; subst he; simp at hm1
+          · intro e he; simp at he
+        have := (foldl_dstep H env infos _ hn).2 i hi hm'
+        simp only [infoNeed, hm']
+        exact this
+
+/-- reader side conditions: stencils only on `GH_READ` arguments (LFRic metadata rule), a literal
+halo depth is ≥ 1, and no stencil in a loop to the maximum halo depth (PSyclone refuses it) -/
+def ReaderOK (b : Bound) (a : Arg) : Prop :=
+  (a.stencil.isSome = true → a.access = .read) ∧ b.lvl.wf ∧
+  (b.lvl = .haloMax → a.stencil = none)
+
+theorem readInfo_need (H : Nat) (env : Nat → Nat) (cont : Bool) (k : Kern) (b : Bound) (a : Arg)
+    (hok : ReaderOK b a) :
+    (specNeed H env cont k b a).depth ≤ infoNeed H env (readInfo k b a) ∧
+    InfoWF (readInfo k b a) := by
+  obtain ⟨lvl, col⟩ := b
+  obtain ⟨f, acc, disc, st⟩ := a
+  obtain ⟨dof, args⟩ := k
+  obtain ⟨h1, h2, h3⟩ := hok
+  generalize haw : Kern.allWrites ⟨dof, args⟩ = aw
+  cases lvl
+  case halo d =>
+    have hd0 : d ≠ 0 := by simp [Level.wf] at h2; omega
+    rcases st with _ | ⟨n | v⟩ <;> cases dof <;> cases acc <;>
+      simp_all [specNeed, readInfo, infoNeed, infoAdj, InfoWF, lvlOf, Level.isHalo, Level.litDepth,
+        Access.reads, extentVal, envv] <;> omega
+  all_goals
+    rcases st with _ | ⟨n | v⟩ <;> cases dof <;> cases acc <;> cases col <;> cases disc <;> cases aw <;>
+      simp_all [specNeed, readInfo, infoNeed, infoAdj, InfoWF, lvlOf, Level.isHalo, Level.litDepth,
+        Access.reads, extentVal, envv] <;> omega
+
 end C22
